@@ -123,6 +123,37 @@ theorem returns_builds_default (v : Nat) (vs : List Nat) :
   obtain ⟨q1, q2, q3⟩ := one (createWhen none (some v)) rfl rfl rfl rfl
   exact ⟨p1, p2, p3, q1, q2, q3⟩
 
+/-- when.go:171 `Matches(Pair{a₁,v₁}, …)`: every pair becomes its own one-element stub at the end of the match order, and every
+    stub that existed before — its sequence and its cursor —, the default and the current condition are untouched.
+    (False for the source as it stood before fix F14: `Matches` first called `w.Return(v)` for every pair, which appended
+    `v` to the sequence of the current condition or of the default.) -/
+theorem matches_builds (ps : List (Nat × Nat)) : ∀ (w : When),
+    (matchesOp w ps).ms = w.ms ++ ps.map (fun p => ⟨.eq p.1, [p.2], 0⟩) ∧
+    (matchesOp w ps).mlist = w.mlist ++ (List.range ps.length).map (· + w.ms.length) ∧
+    (matchesOp w ps).dflt = w.dflt ∧ (matchesOp w ps).curMatch = w.curMatch := by
+  induction ps with
+  | nil => intro w; simp only [matchesOp, List.foldl_nil, List.map_nil, List.append_nil, List.length_nil, List.range_zero, and_self]
+  | cons p ps ih =>
+    intro w
+    have e : matchPair w p = { w with ms := w.ms ++ [⟨.eq p.1, [p.2], 0⟩], mlist := w.mlist ++ [w.ms.length] } := by
+      simp only [matchPair, Gen.Cursor.matchesReturnsFirst, Bool.false_eq_true, if_false]
+    obtain ⟨h1, h2, h3, h4⟩ := ih (matchPair w p)
+    simp only [matchesOp, List.foldl_cons] at h1 h2 h3 h4 ⊢
+    rw [h1, h2, h3, h4, e]
+    refine ⟨by simp only [List.map_cons, List.append_assoc, List.singleton_append], ?_, rfl, rfl⟩
+    simp only [List.length_cons, List.range_succ_eq_map, List.map_cons, List.map_map, List.append_assoc, List.singleton_append,
+      Nat.zero_add, List.length_append, List.length_nil, Nat.zero_add]
+    congr 2
+    apply List.map_congr_left
+    intro k _
+    simp only [Function.comp, Nat.succ_eq_add_one]
+    omega
+
+/-- the existing stubs keep serving their own sequences after a `Matches` (with `calls_kth`: the default given `[7]`
+    still answers 7 forever) -/
+example : (calls (matchesOp (createWhen none (some 7)) [(1, 5), (2, 6)]) [0, 1, 0, 2, 0]).map (·.2) =
+    [.val 7, .val 5, .val 7, .val 6, .val 7] := by decide
+
 /-- **in order + sticky + independent** (the sequential clause of the property, full strength):
     in any `When` state, for a stub `i` holding `n ≥ 1` results whose cursor is at the start, and for **every** list of
     calls (selecting `i` or any other stub or nothing, in any interleaving), the `k`-th of the calls that select `i`
